@@ -106,6 +106,17 @@ package parsepasses
 
 // the list of loop variables follows the block structure: a loop variable
 // leaves scope with its loop, and visiting any node leaves the list as it was.
+// a use of a key counts as a use of a {let} going out of scope only if it has
+// the let's name AND happened after the let was declared: a read of a same-named
+// @param before the {let} stays a use of the param.
+//@ func (*templateChecker).usesLetFrom
+//@   props C07
+//@   pure
+//@   requires 0 <= first && len(tc.letUseStart) == len(tc.letVars)
+//@   ensures[a-let-of-that-name-declared-before-the-use;C07] result == exists(k, first, len(tc.letVars), tc.letVars[k] == key && tc.letUseStart[k] <= use)
+//@   loop 0
+//@     invariant first <= i && forall(k, first, i, !(tc.letVars[k] == key && tc.letUseStart[k] <= use))
+//@     decreases len(tc.letVars) - i
 //@ func (*templateChecker).recurse
 //@   props C07
 //@   nosafety
@@ -118,6 +129,8 @@ package parsepasses
 //@   at call ast.ParentNode.Children#0 after set nchildren = len(res)
 //@   at call (*templateChecker).checkTemplate#0 after set visited = visited + 1
 //@   ensures[every-child-checked;C07] visited == nchildren
+//@   at call (*templateChecker).usesLetFrom#0 assert[uses-are-matched-against-the-lets-leaving-scope;C07] arg0 == tc && arg1 == initialLetVars && arg3 == i && same(arg2, tc.usedKeys[i])
+//@   at call (*templateChecker).usesLetFrom#0 assume len(tc.letUseStart) == len(tc.letVars)
 //@   loop 0
 //@     invariant[children-checked-so-far;C07] visited == rangeindex + 1 && visited <= nchildren
 // the rules are checked on every node of the template: whatever the kind of a
@@ -135,6 +148,8 @@ package parsepasses
 //@   at call (*templateChecker).recurse#* after set rec = true
 //@   at call (*templateChecker).recurse#0 assert[a-let's-value-is-checked-before-its-variable-is-bound;C07] len(tc.letVars) == old(len(tc.letVars))
 //@   at call (*templateChecker).recurse#1 assert[a-let's-content-is-checked-before-its-variable-is-bound;C07] len(tc.letVars) == old(len(tc.letVars))
+//@   at call store#2 assert[a-let's-own-uses-start-at-its-declaration;C07] val == len(tc.usedKeys)
+//@   at call store#6 assert[a-let's-own-uses-start-at-its-declaration;C07] val == len(tc.usedKeys)
 //@   at call (*templateChecker).checkTemplate#0 assert[the-loop's-list-is-checked-without-the-loop-variable;C07] arg0 == tc && arg1 == unbox(node, *ast.ForNode).List && len(tc.forVars) == old(len(tc.forVars))
 //@   at call (*templateChecker).checkTemplate#0 after set parts = parts + 1
 //@   at call (*templateChecker).checkTemplate#1 assert[the-loop's-body-is-checked-with-the-loop-variable-on-top;C07] arg0 == tc && arg1 == unbox(node, *ast.ForNode).Body && len(tc.forVars) == old(len(tc.forVars)) + 1 && tc.forVars[len(tc.forVars)-1] == unbox(node, *ast.ForNode).Var
